@@ -141,6 +141,11 @@ class _SocksMachine(object):
             (version, method) = struct.unpack('BB', reply)
             if version == 5 and method in [0x00, 0x02]:
                 self.version_reply(method)
+                if self._data:
+                    # more arrived in the same segment as the
+                    # method reply; it is (the start of) the reply
+                    # to the request we have just sent
+                    self.got_data()
             else:
                 if version != 5:
                     self.version_error(SocksError(
